@@ -15,7 +15,8 @@ RULE = ("Programs are lists of items (NOP, RMB n, LDA 100,X, LDX #$1234, a branc
         "directions x 0..140 (all 19) and 32750..32780 (LBRA LBSR LBEQ LBNE); label,PCR on LDA LEAX STA JMP (1-byte "
         "opcode) and LDY STS CMPD (2-byte) x plain/indirect x k in {-2,0,+2} x both directions x distance 0..140 with "
         "three filler styles, and 32750..32780 for LDA/LDY; constants of +-100..200 with the label in either order of "
-        "writing (T0+120 and 120+T0) at distances 0..35; pairs (thorough: triples) of nested PCR statements over a "
+        "writing (T0+120 and 120+T0) at distances 0..35; offsets written with an explicit < or > prefix at distances "
+        "0..5, 110..140 and 250..261; pairs (thorough: triples) of nested PCR statements over a "
         "grid of gaps around the 8-bit limit in all direction combinations. Hypothesis draws item lists with 1-6 "
         "relative statements and fillers biased to the limits; a second search and an enumerated family take the "
         "filler between source and target from one label-free file spliced in by INCLUDE, twice or more. Oracle: "
@@ -67,7 +68,7 @@ def item_text(item):
             tgt = "%d+%s" % (k, item["to"])
         else:
             tgt = item["to"] + ("" if k == 0 else ("+%d" % k if k > 0 else "-%d" % -k))
-        body = tgt + ",PCR"
+        body = item.get("pre", "") + tgt + ",PCR"          # an explicit < or > size prefix on the offset
         return A.line(lab, item["mn"], "[" + body + "]" if item.get("ind") else body)
     raise KeyError(t)
 
@@ -173,6 +174,14 @@ def enumerated(tier, seed):
                         yield one_source(dict(t="pcr", mn=mn, ind=ind, to="T0", k=k), dist, forward, dist % 3)
                         if k > 0:
                             yield one_source(dict(t="pcr", mn=mn, ind=ind, to="T0", k=k, rev=True), dist, forward, dist % 3)
+    # 3c. the offset written with an explicit size prefix (<label,PCR  >label,PCR): whatever the tool makes of the
+    #     prefix, an accepted operand must reach its label (a < that cannot hold the displacement may be refused)
+    for mn in ("LDA", "LDY"):
+        for ind in (False, True):
+            for pre in ("<", ">"):
+                for dist in list(range(0, 6)) + list(range(110, 141)) + list(range(250, 262)):
+                    for forward in (True, False):
+                        yield one_source(dict(t="pcr", mn=mn, ind=ind, to="T0", k=0, pre=pre), dist, forward, dist % 3)
     # 4. label,PCR around the 16-bit limit
     for mn in ("LDA", "LDY"):
         for dist in range(32750, 32781):
@@ -316,7 +325,7 @@ _gap = st.one_of(st.integers(0, 8), st.integers(100, 135), st.integers(0, 140), 
 _rel = st.one_of(
     st.fixed_dictionaries(dict(t=st.just("pcr"), mn=st.sampled_from(PCR1 + PCR2), ind=st.booleans(),
                                to=st.integers(0, 5), k=st.sampled_from([0, 0, 0, 1, -1, 2, -3, 7, 100, 126, 130, 200, -120, -130]),
-                               rev=st.booleans())),
+                               rev=st.booleans(), pre=st.sampled_from(["", "", "", "", "<", ">"]))),
     st.fixed_dictionaries(dict(t=st.just("br"), mn=st.sampled_from(SHORT + LONG), to=st.integers(0, 5))))
 _segment = st.tuples(_gap, st.integers(0, 2), _rel)
 
@@ -388,6 +397,8 @@ def execute(case):
         for d in (dmin, dmax):
             if min(abs(abs(d) - 127), abs(abs(d) - 128), abs(abs(d) - 32767), abs(abs(d) - 32768)) <= 8:
                 near = True
+        if it["t"] == "pcr" and it.get("pre") == "<" and (dmax > 127 or dmin < -128):
+            may_reject = True       # a forced 8-bit offset that cannot hold the displacement
         if it["t"] == "br" and it["mn"] in SHORT:
             if dmin > 127 or dmax < -128:
                 must_reject = True
